@@ -309,6 +309,37 @@ def lookup_case(spec):
             test="corotate_lookup", case=tag, target=targets[j].tolist(), rotation=M.tolist(),
             what="rotating source pose and target together changes the directivity factor: %r -> %r"
                  % (float(a[j]), float(b[j]))))
+    # ---- the same DirectivityMS object used by a second source at the SAME position with another
+    # orientation, queried for the same targets afterwards: the factors follow the new orientation
+    view2, up2 = draw_frame(rng)
+    src2 = SoundSource(pos, view2, up2, dms)
+    w2 = oracle_dirs(pos, view2, up2, targets)
+    idx2, gap2 = oracle_index(recv, w2)
+    ok2 = gap2 >= TIE_EPS
+    for f in fs[:2]:
+        kf = int(np.argmin(np.abs(info["freqs"] - f)))
+        np.asarray(src.get_directivity(targets, f))              # first orientation asked first
+        got2 = np.real(np.asarray(src2.get_directivity(targets, f)))
+        want2 = table[idx2, kf]
+        bad = ok2 & (got2 != want2)
+        if np.any(bad):
+            j = int(np.argmax(bad))
+            out["prop_failures"].append(dict(
+                test="reorient_shared_directivity", case=tag, target=targets[j].tolist(), frequency=float(f),
+                view2=view2.tolist(), up2=up2.tolist(),
+                what="a second source at the same position with another orientation, sharing the DirectivityMS "
+                     "object, returns %r for a target the first source was asked about before; the table entry of "
+                     "the nearest measured direction in ITS frame is %r" % (float(got2[j]), float(want2[j]))))
+            break
+        # and the first source again afterwards
+        got1 = np.real(np.asarray(src.get_directivity(targets, f)))
+        if not np.array_equal(got1, table[idx, kf]):
+            j = int(np.argmax(got1 != table[idx, kf]))
+            out["prop_failures"].append(dict(
+                test="reorient_shared_directivity", case=tag, target=targets[j].tolist(), frequency=float(f),
+                what="after another orientation was served, the first source returns %r instead of %r"
+                     % (float(got1[j]), float(table[idx, kf][j]))))
+            break
     out["traces"] = len(fs) + 2
     if len(set(idx.tolist())) >= 2:
         out["nontrivial"].append(case_hash(tag))
